@@ -1513,6 +1513,92 @@ func (ro *RedisOutput) bisyncStartPoint(ctx context.Context, runIDs []string) (S
 	return sp, best.UnitSeq, true, nil
 }
 
+// saveBisyncBaselineFrontier stores the end of a completed full sync as the frontier of the namespace.
+// The journal is only readable relative to a stored frontier : RebuildBisyncFrontier refuses a journal that
+// neither follows a snapshot nor starts at sequence 1. Without this baseline the first units after a full
+// sync have nothing to connect to, and a stop that leaves a later unit journalled while an earlier one is
+// still in flight (parallel lanes) makes every following start fail with ErrBisyncJournalGap.
+// The end of the snapshot takes a sequence number of its own, so the baseline is valid (seq > 0) for an
+// empty snapshot as well, and the incremental units continue the numbering of the snapshot units.
+func (ro *RedisOutput) saveBisyncBaselineFrontier(ctx context.Context, runID string, offset int64) error {
+	if !ro.cfg.ReplayMode.UsesFrontier() || !ro.cfg.EnableResumeFromBreakPoint {
+		return nil
+	}
+	frontier := &checkpoint.BisyncFrontierSnapshot{
+		Version: config.Version,
+		RunID:   runID,
+		UnitSeq: ro.bisyncSeq.Add(1),
+		Offset:  offset,
+		MTime:   time.Now().UnixNano(),
+	}
+	err := util.RetryLinearJitter(ctx, func() error {
+		cli, err := ro.NewRedisConn(ctx)
+		if err != nil {
+			return err
+		}
+		defer cli.Close()
+		// Whatever the journal still holds belongs to the position the full sync has replaced (snapshot
+		// units are not journalled). The baseline continues the sequence numbers of that position, so a
+		// record left above it (a later unit committed while an earlier one hung) would be chained onto the
+		// units that follow the snapshot. Journal first, baseline second : until the baseline is stored
+		// the old frontier is in force, for which a shorter journal only means an earlier resume point,
+		// and the full sync is repeated anyway because its root checkpoint has not been written.
+		if err := ro.dropBisyncJournal(cli, ro.bisyncCheckpointName(), ro.bisyncRecoverySlots()); err != nil {
+			return err
+		}
+		return checkpoint.SaveBisyncFrontierSnapshot(cli, checkpoint.BisyncFrontierKey(ro.bisyncCheckpointName()), frontier)
+	}, 5, time.Second*2, 0.3)
+	ro.logger.Log(err, "save bisync baseline frontier : checkpoint(%s), frontier(%+v), err(%v)", ro.bisyncCheckpointName(), frontier, err)
+	return err
+}
+
+// dropBisyncJournal removes every journal record that is reachable through the per-slot commit indexes
+// of the namespace, and the indexes that had members.
+func (ro *RedisOutput) dropBisyncJournal(cli client.Redis, checkpointName string, slots []uint16) error {
+	indexKeys := make([]string, 0, len(slots))
+	for _, slot := range slots {
+		indexKeys = append(indexKeys, checkpoint.BisyncCommitIndexKey(checkpointName, checkpoint.BisyncSlotTag(slot)))
+	}
+	batcher := cli.NewBatcher(false)
+	for _, indexKey := range indexKeys {
+		if err := batcher.Put("zrangebyscore", indexKey, "-inf", "+inf"); err != nil {
+			return err
+		}
+	}
+	replies, err := batcher.Exec()
+	if err != nil {
+		return err
+	}
+	if len(replies) != len(indexKeys) {
+		return fmt.Errorf("drop bisync journal: replies(%d) != keys(%d)", len(replies), len(indexKeys))
+	}
+
+	keys := make([]string, 0)
+	records := 0
+	for i, reply := range replies {
+		if reply == nil {
+			continue
+		}
+		members, err := rediscommon.Strings(reply, nil)
+		if err != nil {
+			return err
+		}
+		if len(members) == 0 {
+			continue
+		}
+		records += len(members)
+		keys = append(keys, members...)
+		keys = append(keys, indexKeys[i])
+	}
+	if err := checkpoint.DeleteBisyncCommitKeys(cli, keys); err != nil {
+		return err
+	}
+	if records > 0 {
+		bisyncCommitGCCounter.Add(float64(records), ro.cfg.InputName)
+	}
+	return nil
+}
+
 func (ro *RedisOutput) bisyncRootCheckpointNewer(root StartPoint, selected StartPoint, runIDs []string) bool {
 	return root.RunId != "" &&
 		root.Offset > selected.Offset &&
